@@ -7,11 +7,15 @@
      H id | new o | kv k n (key i|o val)* | add o ty chr name var hasarg kv init | sub o s prefix
      parse o argc args.. | load o f | loadargs o f | save o f | file f bytes | errno n
      seti v z | setd v bits | sets v s | destroy o | summary o | strtol s | dirty c | quiet b | E
+   iniparser's dictionary directly (iniparser/dictionary.h is part of libsc):
+     dnew size | dset key val | dget key | dunset key | dall      (val '-' = NULL; dget prints '!' for "not found")
+   every d-line prints d->n and d->size; dall prints every slot in use as index:key:value.
    `quiet 1`: the result lines of the declaration operations (new, kv, add, sub) carry no dump of the variables until
    `quiet 0` (histories with hundreds of options: the dump of every variable after every declaration is quadratic).  */
 #include <sc.h>
 #include <sc_options.h>
 #include <sc_keyvalue.h>
+#include <dictionary.h>
 #include <getopt.h>
 #include <errno.h>
 #include <inttypes.h>
@@ -30,6 +34,7 @@ static char         kind[NV];   /* 0 unused, i, z, d, s */
 static sc_options_t *obj[NO];
 static sc_keyvalue_t *kvt[NK];
 static char         tmpdir[256];
+static dictionary  *dic;
 static int          quiet;       /* no variable dump on the lines of declaration operations */
 static int          saveok[NO];  /* sc_options_save is legal only after a successful parse / load_args */
 
@@ -190,6 +195,7 @@ int main (int argc, char **argv)
       size_t i;
       for (o = 0; o < NO; ++o) if (obj[o]) { sc_options_destroy (obj[o]); obj[o] = NULL; }
       for (k = 0; k < NK; ++k) if (kvt[k]) { sc_keyvalue_destroy (kvt[k]); kvt[k] = NULL; }
+      if (dic != NULL) { dictionary_del (dic); dic = NULL; }
       bal = (sc_memory_status (sc_package_id) == mem0) && (sc_memory_status (-1) == dmem0);
       for (i = 0; i < nkeep; ++i) free (keep[i]);
       nkeep = 0;
@@ -286,6 +292,25 @@ int main (int argc, char **argv)
     }
     else if (!strcmp (op, "dirty")) next_fill = atoi (tok[1]);
     else if (!strcmp (op, "quiet")) quiet = atoi (tok[1]);
+    else if (op[0] == 'd' && (!strcmp (op, "dnew") || !strcmp (op, "dset") || !strcmp (op, "dget") || !strcmp (op, "dunset") || !strcmp (op, "dall"))) {
+      static char notfound[] = "!";
+      char *key = n > 1 && op[1] != 'n' ? unhex (tok[1], NULL) : NULL;
+      if (!strcmp (op, "dnew")) { if (dic != NULL) dictionary_del (dic); dic = dictionary_new (atoi (tok[1])); }
+      else if (!strcmp (op, "dset")) { char *val = unhex (tok[2], NULL); ret = dictionary_set (dic, key, val); free (val); }
+      else if (!strcmp (op, "dunset")) dictionary_unset (dic, key);
+      printf ("%s r=%d | n=%d size=%d", op, ret, dic->n, dic->size);
+      if (!strcmp (op, "dget")) {
+        char *v = dictionary_get (dic, key, notfound);
+        if (v == notfound) printf (" v=!"); else { printf (" v="); puthex (v); }
+      }
+      if (!strcmp (op, "dall")) {
+        int i;
+        for (i = 0; i < dic->size; ++i) if (dic->key[i] != NULL) { printf (" %d:", i); puthex (dic->key[i]); putchar (':'); puthex (dic->val[i]); }
+      }
+      printf ("\n");
+      free (key);
+      continue;
+    }
     else if (!strcmp (op, "strtol")) {
       char *s = unhex (tok[1], NULL);
       long l;
